@@ -163,14 +163,18 @@ Theorem C15_pi_model_value : pi_model_res = Ok (Qmake pi_num pi_den).
 Proof. exact pi_model_res_ok. Qed.
 Print Assumptions C15_pi_model_value.
 
-Theorem C15_pi_accuracy : Rabs (Q2R pi_model - PI) <= 1 / 10 ^ 23.
-Proof. exact pi_accuracy_lemma. Qed.
-Print Assumptions C15_pi_accuracy.
+(* one obligation (the clauses share Interval's reflective machinery, whose
+   assumption audit costs seconds per theorem) *)
+Theorem C15_constants_accuracy :
+  (* C15_pi_accuracy *)
+  (Rabs (Q2R pi_model - PI) <= 1 / 10 ^ 23) /\
+  (* C15_e_accuracy *)
+  (Rabs (Q2R e_model - exp 1) <= 1 / 10 ^ 18).
+Proof. exact (conj pi_accuracy_lemma e_accuracy_lemma). Qed.
+Print Assumptions C15_constants_accuracy.
 
 (* --------------------------------------------------------------- (10) *)
-Theorem C15_e_accuracy : Rabs (Q2R e_model - exp 1) <= 1 / 10 ^ 18.
-Proof. exact e_accuracy_lemma. Qed.
-Print Assumptions C15_e_accuracy.
+(* clause C15_e_accuracy: see the conjunction C15_constants_accuracy *)
 
 (* --------------------------------------------------------------- (11) *)
 (* degrees (and the other angle units) are converted to an exact multiple of
@@ -370,30 +374,46 @@ Print Assumptions C15_nan_is_error.
    Missing for the full statement: (b) as a theorem; the functions with
    unbounded derivative or exponential growth (asin acos acosh atanh sinh
    cosh exp ln log2 log10), for which the statement is false anyway. *)
-Theorem C15_accuracy_partial : forall Fo q,
+(* the conditional accuracy theorems with BOTH hypotheses, and their one-limb
+   instances with the libm hypothesis only: one conjunction *)
+Theorem C15_accuracy_partial_all :
+  (* C15_accuracy_partial *)
+  (forall Fo q,
   Rabs (Q2R q) <= 1000 ->
   into_ok (/ 2 ^ 50) q -> libm_ok (Fo Fsin) sin (/ 2 ^ 52) (into_f64 q) ->
   exists v, real_fn Fo Fsin (RSimple q) = Ok v /\
-            within_budget (real_val (exv v)) (true_fn Fsin (Q2R q)).
-Proof. exact accuracy_partial_sin. Qed.
-Print Assumptions C15_accuracy_partial.
-
-Theorem C15_accuracy_partial_cos : forall Fo q,
+            within_budget (real_val (exv v)) (true_fn Fsin (Q2R q))) /\
+  (* C15_accuracy_partial_cos *)
+  (forall Fo q,
   Rabs (Q2R q) <= 1000 -> (Qnum q =? 0)%Z = false ->
   let a := rat_add q ((1 # 2) * pi_model) in
   into_ok (/ 2 ^ 50) a -> libm_ok (Fo Fsin) sin (/ 2 ^ 52) (into_f64 a) ->
   exists v, real_fn Fo Fcos (RSimple q) = Ok v /\
-            within_budget (real_val (exv v)) (true_fn Fcos (Q2R q)).
-Proof. exact accuracy_partial_cos. Qed.
-Print Assumptions C15_accuracy_partial_cos.
-
-Theorem C15_accuracy_partial_atan : forall Fo q,
+            within_budget (real_val (exv v)) (true_fn Fcos (Q2R q))) /\
+  (* C15_accuracy_partial_atan *)
+  (forall Fo q,
   Rabs (Q2R q) <= 1000 ->
   into_ok (/ 2 ^ 50) q -> libm_ok (Fo Fatan) atan (/ 2 ^ 52) (into_f64 q) ->
   exists v, real_fn Fo Fatan (RSimple q) = Ok v /\
-            within_budget (real_val (exv v)) (true_fn Fatan (Q2R q)).
-Proof. exact accuracy_partial_atan. Qed.
-Print Assumptions C15_accuracy_partial_atan.
+            within_budget (real_val (exv v)) (true_fn Fatan (Q2R q))) /\
+  (* C15_accuracy_small_operands_sin *)
+  (forall Fo q,
+  Rabs (Q2R q) <= 1000 -> small_operands q ->
+  libm_ok (Fo Fsin) sin (/ 2 ^ 52) (into_f64 q) ->
+  exists v, real_fn Fo Fsin (RSimple q) = Ok v /\
+            within_budget (real_val (exv v)) (true_fn Fsin (Q2R q))) /\
+  (* C15_accuracy_small_operands_atan *)
+  (forall Fo q,
+  Rabs (Q2R q) <= 1000 -> small_operands q ->
+  libm_ok (Fo Fatan) atan (/ 2 ^ 52) (into_f64 q) ->
+  exists v, real_fn Fo Fatan (RSimple q) = Ok v /\
+            within_budget (real_val (exv v)) (true_fn Fatan (Q2R q))).
+Proof. exact (conj accuracy_partial_sin (conj accuracy_partial_cos (conj accuracy_partial_atan (conj accuracy_sin_small accuracy_atan_small)))). Qed.
+Print Assumptions C15_accuracy_partial_all.
+
+(* clause C15_accuracy_partial_cos: see the conjunction C15_accuracy_partial_all *)
+
+(* clause C15_accuracy_partial_atan: see the conjunction C15_accuracy_partial_all *)
 
 (* ------------------------------------------------------------- (19b) *)
 (* hypothesis (b) is a THEOREM when the simplified numerator and denominator
@@ -411,25 +431,23 @@ Theorem C15_round_pos_rel_error : forall neg n d s, (0 < n)%N -> (0 < d)%N ->
 Proof. exact round_pos_rel_error. Qed.
 Print Assumptions C15_round_pos_rel_error.
 
-Theorem C15_into_f64_small_accurate : forall q, small_operands q -> into_ok (/ 2 ^ 50) q.
-Proof. exact into_ok_small. Qed.
-Print Assumptions C15_into_f64_small_accurate.
+(* into_f64 accuracy, one limb and many limbs: one conjunction *)
+Theorem C15_conversion_accuracy :
+  (* C15_into_f64_small_accurate *)
+  (forall q, small_operands q -> into_ok (/ 2 ^ 50) q) /\
+  (* C15_as_f64_accurate *)
+  (forall n, (0 < n < 2 ^ 1023)%N ->
+  exists m e, as_f64 n = FFin false m e /\ (2 ^ 52 <= m <= 2 ^ 53)%N /\
+              Rabs (RN m * p2 e - RN n) <= Ek 32 * RN n) /\
+  (* C15_into_f64_accurate *)
+  (forall q, ordinary_operands q -> Rabs (Q2R q) <= 1000 ->
+  into_ok (/ 2 ^ 46) q).
+Proof. exact (conj into_ok_small (conj as_f64_multi into_ok_ordinary)). Qed.
+Print Assumptions C15_conversion_accuracy.
 
-Theorem C15_accuracy_small_operands_sin : forall Fo q,
-  Rabs (Q2R q) <= 1000 -> small_operands q ->
-  libm_ok (Fo Fsin) sin (/ 2 ^ 52) (into_f64 q) ->
-  exists v, real_fn Fo Fsin (RSimple q) = Ok v /\
-            within_budget (real_val (exv v)) (true_fn Fsin (Q2R q)).
-Proof. exact accuracy_sin_small. Qed.
-Print Assumptions C15_accuracy_small_operands_sin.
+(* clause C15_accuracy_small_operands_sin: see the conjunction C15_accuracy_partial_all *)
 
-Theorem C15_accuracy_small_operands_atan : forall Fo q,
-  Rabs (Q2R q) <= 1000 -> small_operands q ->
-  libm_ok (Fo Fatan) atan (/ 2 ^ 52) (into_f64 q) ->
-  exists v, real_fn Fo Fatan (RSimple q) = Ok v /\
-            within_budget (real_val (exv v)) (true_fn Fatan (Q2R q)).
-Proof. exact accuracy_atan_small. Qed.
-Print Assumptions C15_accuracy_small_operands_atan.
+(* clause C15_accuracy_small_operands_atan: see the conjunction C15_accuracy_partial_all *)
 
 (* ------------------------------------------------------------- (19c) *)
 (* MULTI-limb operands.  BigUint::as_f64 performs two roundings per limb; for
@@ -438,78 +456,74 @@ Print Assumptions C15_accuracy_small_operands_atan.
    relative of the rational whenever the simplified numerator and denominator
    are below 2^1023 and the quotient is between 2^-999 and 2^1000 in magnitude
    (below that the quotient enters the subnormal range of f64). *)
-Theorem C15_as_f64_accurate : forall n, (0 < n < 2 ^ 1023)%N ->
-  exists m e, as_f64 n = FFin false m e /\ (2 ^ 52 <= m <= 2 ^ 53)%N /\
-              Rabs (RN m * p2 e - RN n) <= Ek 32 * RN n.
-Proof. exact as_f64_multi. Qed.
-Print Assumptions C15_as_f64_accurate.
+(* clause C15_as_f64_accurate: see the conjunction C15_conversion_accuracy *)
 
-Theorem C15_into_f64_accurate : forall q, ordinary_operands q -> Rabs (Q2R q) <= 1000 ->
-  into_ok (/ 2 ^ 46) q.
-Proof. exact into_ok_ordinary. Qed.
-Print Assumptions C15_into_f64_accurate.
+(* clause C15_into_f64_accurate: see the conjunction C15_conversion_accuracy *)
 
 (* so the accuracy theorems lose their conversion hypothesis: the ONLY premise
    left is about libm at the single consulted point (finite answer within one
    ulp: absolute 2^-52 for sin cos atan tanh, 2^-50 for asinh, relative 2^-52
    for sinh and cosh) *)
-Theorem C15_accuracy_sin : forall Fo q,
+(* sin cos atan tanh asinh sinh cosh: one conjunction, clause names in comments *)
+Theorem C15_accuracy_libm_only :
+  (* C15_accuracy_sin *)
+  (forall Fo q,
   Rabs (Q2R q) <= 1000 -> ordinary_operands q ->
   libm_ok (Fo Fsin) sin (/ 2 ^ 52) (into_f64 q) ->
   exists v, real_fn Fo Fsin (RSimple q) = Ok v /\
-            within_budget (real_val (exv v)) (true_fn Fsin (Q2R q)).
-Proof. exact accuracy_sin_ordinary. Qed.
-Print Assumptions C15_accuracy_sin.
-
-Theorem C15_accuracy_cos : forall Fo q,
+            within_budget (real_val (exv v)) (true_fn Fsin (Q2R q))) /\
+  (* C15_accuracy_cos *)
+  (forall Fo q,
   Rabs (Q2R q) <= 1000 -> (Qnum q =? 0)%Z = false ->
   let a := rat_add q ((1 # 2) * pi_model) in
   ordinary_operands a ->
   libm_ok (Fo Fsin) sin (/ 2 ^ 52) (into_f64 a) ->
   exists v, real_fn Fo Fcos (RSimple q) = Ok v /\
-            within_budget (real_val (exv v)) (true_fn Fcos (Q2R q)).
-Proof. exact accuracy_cos_ordinary. Qed.
-Print Assumptions C15_accuracy_cos.
-
-Theorem C15_accuracy_atan : forall Fo q,
+            within_budget (real_val (exv v)) (true_fn Fcos (Q2R q))) /\
+  (* C15_accuracy_atan *)
+  (forall Fo q,
   Rabs (Q2R q) <= 1000 -> ordinary_operands q ->
   libm_ok (Fo Fatan) atan (/ 2 ^ 52) (into_f64 q) ->
   exists v, real_fn Fo Fatan (RSimple q) = Ok v /\
-            within_budget (real_val (exv v)) (true_fn Fatan (Q2R q)).
-Proof. exact accuracy_atan_ordinary. Qed.
-Print Assumptions C15_accuracy_atan.
-
-Theorem C15_accuracy_tanh : forall Fo q,
+            within_budget (real_val (exv v)) (true_fn Fatan (Q2R q))) /\
+  (* C15_accuracy_tanh *)
+  (forall Fo q,
   Rabs (Q2R q) <= 1000 -> ordinary_operands q ->
   libm_ok (Fo Ftanh) tanh (/ 2 ^ 52) (into_f64 q) ->
   exists v, real_fn Fo Ftanh (RSimple q) = Ok v /\
-            within_budget (real_val (exv v)) (true_fn Ftanh (Q2R q)).
-Proof. exact accuracy_tanh_ordinary. Qed.
-Print Assumptions C15_accuracy_tanh.
-
-Theorem C15_accuracy_asinh : forall Fo q,
+            within_budget (real_val (exv v)) (true_fn Ftanh (Q2R q))) /\
+  (* C15_accuracy_asinh *)
+  (forall Fo q,
   Rabs (Q2R q) <= 1000 -> ordinary_operands q ->
   libm_ok (Fo Fasinh) arcsinh (/ 2 ^ 50) (into_f64 q) ->
   exists v, real_fn Fo Fasinh (RSimple q) = Ok v /\
-            within_budget (real_val (exv v)) (true_fn Fasinh (Q2R q)).
-Proof. exact accuracy_asinh_ordinary. Qed.
-Print Assumptions C15_accuracy_asinh.
-
-Theorem C15_accuracy_sinh : forall Fo q,
+            within_budget (real_val (exv v)) (true_fn Fasinh (Q2R q))) /\
+  (* C15_accuracy_sinh *)
+  (forall Fo q,
   Rabs (Q2R q) <= 1000 -> ordinary_operands q ->
   libm_rel (Fo Fsinh) sinh (/ 2 ^ 52) (into_f64 q) ->
   exists v, real_fn Fo Fsinh (RSimple q) = Ok v /\
-            within_budget (real_val (exv v)) (true_fn Fsinh (Q2R q)).
-Proof. exact accuracy_sinh_ordinary. Qed.
-Print Assumptions C15_accuracy_sinh.
-
-Theorem C15_accuracy_cosh : forall Fo q,
+            within_budget (real_val (exv v)) (true_fn Fsinh (Q2R q))) /\
+  (* C15_accuracy_cosh *)
+  (forall Fo q,
   Rabs (Q2R q) <= 1000 -> ordinary_operands q ->
   libm_rel (Fo Fcosh) cosh (/ 2 ^ 52) (into_f64 q) ->
   exists v, real_fn Fo Fcosh (RSimple q) = Ok v /\
-            within_budget (real_val (exv v)) (true_fn Fcosh (Q2R q)).
-Proof. exact accuracy_cosh_ordinary. Qed.
-Print Assumptions C15_accuracy_cosh.
+            within_budget (real_val (exv v)) (true_fn Fcosh (Q2R q))).
+Proof. exact (conj accuracy_sin_ordinary (conj accuracy_cos_ordinary (conj accuracy_atan_ordinary (conj accuracy_tanh_ordinary (conj accuracy_asinh_ordinary (conj accuracy_sinh_ordinary accuracy_cosh_ordinary)))))). Qed.
+Print Assumptions C15_accuracy_libm_only.
+
+(* clause C15_accuracy_cos: see the conjunction C15_accuracy_libm_only *)
+
+(* clause C15_accuracy_atan: see the conjunction C15_accuracy_libm_only *)
+
+(* clause C15_accuracy_tanh: see the conjunction C15_accuracy_libm_only *)
+
+(* clause C15_accuracy_asinh: see the conjunction C15_accuracy_libm_only *)
+
+(* clause C15_accuracy_sinh: see the conjunction C15_accuracy_libm_only *)
+
+(* clause C15_accuracy_cosh: see the conjunction C15_accuracy_libm_only *)
 
 (* ------------------------------------------------------------- (19d) *)
 (* log2 / ln / log10 do not use into_f64: BigRat::log2 is
@@ -520,30 +534,33 @@ Print Assumptions C15_accuracy_cosh.
    BigUint::log2 is within 2^-41 of the real log2, the difference and from_f64
    within 2^-39, and the division by from_f64(LOG2_E) / from_f64(LOG2_10) keeps
    ln and log10 within 1e-9. *)
-Theorem C15_biguint_log2_accurate : forall F n, (0 < n < 2 ^ 1022)%N ->
+(* BigUint::log2, log2, ln, log10: one conjunction *)
+Theorem C15_accuracy_logs :
+  (* C15_biguint_log2_accurate *)
+  (forall F n, (0 < n < 2 ^ 1022)%N ->
   libm_log2_ok F (log2_query_fl n) ->
   zero_or_good (biguint_log2 F n) /\
-  Rabs (flv (biguint_log2 F n) - log2 (RN n)) <= / 2 ^ 41.
-Proof. exact biguint_log2_spec. Qed.
-Print Assumptions C15_biguint_log2_accurate.
-
-Theorem C15_accuracy_log2 : forall Fo q, log_operands q -> libm_log2_at Fo q ->
+  Rabs (flv (biguint_log2 F n) - log2 (RN n)) <= / 2 ^ 41) /\
+  (* C15_accuracy_log2 *)
+  (forall Fo q, log_operands q -> libm_log2_at Fo q ->
   exists v, real_fn Fo Flog2 (RSimple q) = Ok v /\
-            within_budget (real_val (exv v)) (true_fn Flog2 (Q2R q)).
-Proof. exact accuracy_log2. Qed.
-Print Assumptions C15_accuracy_log2.
-
-Theorem C15_accuracy_ln : forall Fo q, log_operands q -> libm_log2_at Fo q ->
+            within_budget (real_val (exv v)) (true_fn Flog2 (Q2R q))) /\
+  (* C15_accuracy_ln *)
+  (forall Fo q, log_operands q -> libm_log2_at Fo q ->
   exists v, real_fn Fo Fln (RSimple q) = Ok v /\
-            within_budget (real_val (exv v)) (true_fn Fln (Q2R q)).
-Proof. exact accuracy_ln. Qed.
-Print Assumptions C15_accuracy_ln.
-
-Theorem C15_accuracy_log10 : forall Fo q, log_operands q -> libm_log2_at Fo q ->
+            within_budget (real_val (exv v)) (true_fn Fln (Q2R q))) /\
+  (* C15_accuracy_log10 *)
+  (forall Fo q, log_operands q -> libm_log2_at Fo q ->
   exists v, real_fn Fo Flog10 (RSimple q) = Ok v /\
-            within_budget (real_val (exv v)) (true_fn Flog10 (Q2R q)).
-Proof. exact accuracy_log10. Qed.
-Print Assumptions C15_accuracy_log10.
+            within_budget (real_val (exv v)) (true_fn Flog10 (Q2R q))).
+Proof. exact (conj biguint_log2_spec (conj accuracy_log2 (conj accuracy_ln accuracy_log10))). Qed.
+Print Assumptions C15_accuracy_logs.
+
+(* clause C15_accuracy_log2: see the conjunction C15_accuracy_logs *)
+
+(* clause C15_accuracy_ln: see the conjunction C15_accuracy_logs *)
+
+(* clause C15_accuracy_log10: see the conjunction C15_accuracy_logs *)
 
 (* --------------------------------------------------------------- (20) *)
 (* error budget of the bridge around the oracle, for ANY function fR with
@@ -567,16 +584,18 @@ Print Assumptions C15_accuracy_refuted.
 (* (22), (23): documentation of the repaired bridge.  With from_f64_old,
    sinh 46 was exactly 2^64 whatever value >= 2^64 (or +inf) libm answered
    (true value 4.7e19), and atan((10^400+1)/10^400) was 0 (true value pi/4). *)
-Theorem C15_saturation_old_refuted : forall y,
+(* the two old-bridge refutations: one conjunction *)
+Theorem C15_old_bridge_refuted :
+  (* C15_saturation_old_refuted *)
+  (forall y,
   (y = FInf false \/ exists m e, y = FFin false m e /\ fl_saturates y = true) ->
-  Q2R (from_f64_old y) = 2 ^ 64 /\ ~ within_budget (Q2R (from_f64_old y)) (sinh 46).
-Proof. exact saturation_old_refuted_lemma. Qed.
-Print Assumptions C15_saturation_old_refuted.
+  Q2R (from_f64_old y) = 2 ^ 64 /\ ~ within_budget (Q2R (from_f64_old y)) (sinh 46)) /\
+  (* C15_nan_old_refuted *)
+  (Q2R (from_f64_old FNaN) = 0 /\ ~ within_budget 0 (atan (Q2R q_big_near_one))).
+Proof. exact (conj saturation_old_refuted_lemma nan_old_refuted_lemma). Qed.
+Print Assumptions C15_old_bridge_refuted.
 
-Theorem C15_nan_old_refuted :
-  Q2R (from_f64_old FNaN) = 0 /\ ~ within_budget 0 (atan (Q2R q_big_near_one)).
-Proof. exact nan_old_refuted_lemma. Qed.
-Print Assumptions C15_nan_old_refuted.
+(* clause C15_nan_old_refuted: see the conjunction C15_old_bridge_refuted *)
 
 (* ------------------------------------------------------------------ *)
 (* non-vacuity of the hypotheses *)
